@@ -329,5 +329,18 @@ func init() {
 		return nil, nil, false
 	})
 	reg("(*sync.Pool).Put", func(in *Interp, s *State, c *callCtx) (Value, []*State, bool) { return nil, nil, true })
-	reg("runtime.Gosched", func(in *Interp, s *State, c *callCtx) (Value, []*State, bool) { return nil, nil, true })
+	// Gosched yields once: the other live threads get to run until they block or finish
+	reg("runtime.Gosched", func(in *Interp, s *State, c *callCtx) (Value, []*State, bool) {
+		if c.th.yielded {
+			c.th.yielded = false
+			return nil, nil, true
+		}
+		if in.live(s) <= 1 {
+			return nil, nil, true
+		}
+		c.th.yielded = true
+		in.block(s, c.th)
+		s.stall = -1 // a yield is not a stall
+		return nil, nil, false
+	})
 }
